@@ -421,3 +421,106 @@ def prove(check, props_file, theorems, extra_targets=()):
     check.coverage['checker_cmd'] = 'cd coq && coq_makefile -f _CoqProject -o Makefile && make %s && coqc %s  (Print Assumptions parsed against an allow-list)' % (target, props_file)
     check.coverage['translated_from'] = manifest
     return discharged == len(theorems)
+
+
+# --------------------------------------------------------------------------------------------
+# generic differential stage: harness (real code) -> traces -> driver (extracted model + predicates)
+# --------------------------------------------------------------------------------------------
+
+def parse_summary(text, agg, extra_maps):
+    for line in text.splitlines():
+        if line.startswith('summary '):
+            for k, v in re.findall(r'(\w+)=([0-9]+)\b', line):
+                agg[k] = agg.get(k, 0) + int(v)
+            for k, v in re.findall(r'(\w+)=((?:[\w\-\.]+:[0-9]+,?)+)', line):
+                d = extra_maps.setdefault(k, {})
+                for kv in v.split(','):
+                    if ':' in kv:
+                        a, b = kv.rsplit(':', 1)
+                        d[a] = d.get(a, 0) + int(b)
+
+
+def differential(check, prop_id, harness_engine, driver_engine, tier, seed, replay,
+                 quick_per_shard, thorough_per_shard, replay_extract, sample_lines=2, harness_extra=(),
+                 driver_extra=(), shards=None, release=False, timeout=3000):
+    """Runs corpus + generated cases of `harness_engine` through the real code, judges the traces
+    with `driver <driver_engine>`.  Registers violations / broken correspondence on `check`.
+    replay_extract(failing_lines) -> text of a replay file in the harness's `replay` input format.
+    Returns (agg, maps, failing_lines, samples)."""
+    ok, out = build_driver()
+    if not ok:
+        check.obligation_broken('extraction / driver build', out)
+    okh, outh = build_harness(release=release)
+    if not okh:
+        check.obligation_broken('harness does not build against the current /repo', outh)
+    agg, maps, failing, samples = {}, {}, [], []
+    if not (ok and okh):
+        return agg, maps, failing, samples
+    os.makedirs(WORK, exist_ok=True)
+    hb = harness_bin(release=release)
+    cmds = []
+    tag = prop_id.lower()
+    if replay:
+        cmds.append(([hb, harness_engine, 'replay', replay] + list(harness_extra), os.path.join(WORK, '%s_replay.trace' % tag)))
+    else:
+        corpus = os.path.join(VERIF, 'corpus', prop_id)
+        if os.path.isdir(corpus):
+            for f in sorted(os.listdir(corpus)):
+                cmds.append(([hb, harness_engine, 'replay', os.path.join(corpus, f)] + list(harness_extra),
+                             os.path.join(WORK, '%s_corpus_%s.trace' % (tag, f))))
+        nsh = shards or NPROC
+        per = quick_per_shard if tier == 'quick' else thorough_per_shard
+        for i in range(nsh):
+            cmds.append(([hb, harness_engine, 'gen', str(seed * 1000 + i), str(per)] + list(harness_extra),
+                         os.path.join(WORK, '%s_gen_%d.trace' % (tag, i))))
+    rcs = run_parallel(cmds, timeout=timeout)
+    traces = []
+    for (argv, t), rc in zip(cmds, rcs):
+        if rc != 0:
+            check.obligation_broken('harness run failed (exit %s): %s' % (rc, ' '.join(argv[1:])), open(t).read()[-2000:])
+        else:
+            traces.append(t)
+    outs = [t + '.verdict' for t in traces]
+    rcs = run_parallel([([os.path.join(OCAML, 'driver'), driver_engine, t] + list(driver_extra), o) for t, o in zip(traces, outs)], timeout=timeout)
+    for rc, o, t in zip(rcs, outs, traces):
+        text = open(o).read()
+        if rc != 0 or 'summary ' not in text:
+            check.obligation_broken('driver failed on %s (exit %s)' % (os.path.basename(t), rc), text[-2000:])
+            continue
+        parse_summary(text, agg, maps)
+        for line in text.splitlines():
+            if 'corr=DIFF' in line or 'prop=FAIL' in line:
+                failing.append(line)
+    for t in traces[-1:]:
+        lines = open(t).read().splitlines()
+        for i in range(0, min(len(lines), 4 * sample_lines), sample_lines):
+            samples.append(' / '.join(l[:240] for l in lines[i:i + sample_lines]))
+    prop_fail = [l for l in failing if 'prop=FAIL' in l]
+    corr_only = [l for l in failing if 'prop=FAIL' not in l]
+    if prop_fail:
+        text = replay_extract(prop_fail[:25])
+        path = write_replay(prop_id, 'failing_cases.txt', text + '\n# verdicts\n' + '\n'.join('# ' + l[:1500] for l in prop_fail[:25]) + '\n')
+        check.violation('%d case(s) on which the real code violates the property predicate' % len(prop_fail), path)
+    if corr_only:
+        check.obligation_broken('correspondence: model and implementation differ on %d case(s) on which the property predicate still holds' % len(corr_only),
+                                '\n'.join(l[:1500] for l in corr_only[:10]))
+    check.coverage.update({
+        'evaluations': agg.get('cases', 0),
+        'distinct_nontrivial': agg.get('nontrivial', 0),
+        'traces_validated_against_impl': agg.get('cases', 0) - agg.get('corr_fail', 0) - agg.get('skipped', 0),
+        'samples': samples,
+        'disagreements': agg.get('corr_fail', 0),
+        'property_failures': agg.get('prop_fail', 0),
+        'input_distribution': dict({k: v for k, v in agg.items() if k not in ('cases', 'corr_fail', 'prop_fail', 'nontrivial')}, **maps),
+    })
+    return agg, maps, failing, samples
+
+
+def extract_between_bars(lines, index=1):
+    """failing verdict lines are `case N corr=.. prop=.. | <input> | impl: .. | model: ..`"""
+    out = []
+    for l in lines:
+        parts = l.split(' | ')
+        if len(parts) > index:
+            out.append(parts[index].strip())
+    return '\n'.join(out) + '\n'
